@@ -331,7 +331,7 @@ def run_native(fn: Callable[..., Any], args: Sequence[int], collect: Optional[se
             if event == "call":
                 code = frame.f_code
                 fname = code.co_filename
-                if "/puresnmp" in fname or "/x690/" in fname:
+                if ("/src/puresnmp" in fname or "/site-packages/x690/" in fname) and "harness_plugins" not in fname:
                     mod = fname.split("site-packages/")[-1].split("/src/")[-1]
                     collect.add(mod[:-3].replace("/", ".") + ":" + code.co_qualname)
         sys.setprofile(prof)
